@@ -6,6 +6,7 @@ cd "$(dirname "$0")"
 export CARGO_NET_OFFLINE=true
 REPO="${VERIF_REPO:-/repo}"
 mkdir -p .work evidence replays
+python3 tools/rs2lean.py "$REPO" lean/IndicatifModel/Generated/Funs.lean
 for p in tools/gen_*.py; do
   case "$p" in
     tools/gen_keys.py) python3 "$p" "$REPO" lean/IndicatifModel/Generated/Keys.lean ;;
